@@ -82,6 +82,7 @@ def rand_grid(rnd, dim, allow_esri=True):
 
 class C16(Property):
     id = "C16"
+    anchors = ('finam.adapters.regrid:ARegridding._get_info', 'finam.adapters.regrid:ARegridding._get_in_coords', 'finam.adapters.regrid:RegridNearest._get_data', 'finam.adapters.regrid:RegridLinear._get_data', 'finam.data.tools.mask:to_compressed', 'finam.data.tools.mask:from_compressed')
     technique = "brute-force geometric oracle with unique located values (nearest), affine-field reproduction + Delaunay hull membership (linear), poison differential for masked sources; real Output>>Regrid*>>Input links"
     rule = (
         "source/target pairs from {uniform, rectilinear, ESRI in all layouts, unstructured triangle cells/points, scattered points} in 1-3 D, "
